@@ -232,11 +232,17 @@ def hiddenRemoveAll {σ} (hs : List Path) (inner : FSI σ) (fuel : Nat) (s : σ)
          | ((s2, dirs), none) => hiddenRemoveDirs hs inner s2 (sortMost dirs))
     | (s1, .ok _) => (s1, .error .other)
 
+/-- the name `HiddenFS.RemoveAll` works with: cleaned, except that the empty name stays empty
+(`if name != "" { name = filepath.Clean(name) }`: the walk cleans every path below the root by
+joining, and the directories are removed deepest first by separator count, so the root must be
+in cleaned form too) -/
+def rmName (n : Path) : Path := if n = [] then n else clean n
+
 def hiddenFS {σ} (hiddenPaths : List Path) (inner : FSI σ) : FSI σ :=
   let hs := HiddenFS.mk hiddenPaths
   { call := fun s c =>
       match c with
-      | .removeAll n => liftU (hiddenRemoveAll hs inner 64 s n)
+      | .removeAll n => liftU (hiddenRemoveAll hs inner 64 s (rmName n))
       | _ =>
         match HiddenFS.translate hs c with
         | .error e => (s, .error e)
